@@ -17,6 +17,17 @@ func verifYield(site string) {
 	}
 }
 
+// VerifPrefix, when set, supplies the URI prefix of a muxer instead of crypto/rand
+// (the simulator derives it from its seed, so that a run is a function of the seed alone).
+var VerifPrefix func() string
+
+func verifPrefix() (string, bool) {
+	if f := VerifPrefix; f != nil {
+		return f(), true
+	}
+	return "", false
+}
+
 // VerifMutexFree reports whether the muxer mutex can currently be acquired.
 func VerifMutexFree(m *Muxer) bool {
 	if !m.mutex.TryLock() {
